@@ -418,6 +418,29 @@ Theorem C02_generation_conn_offset : forall run cfg log o evs g' outs,
 Proof. exact generation_conn_offset. Qed.
 Print Assumptions C02_generation_conn_offset.
 
+(* C02_restart_offset_absolute_after_init: the FirstOffset / LastOffset placeholder a generation
+   starts with is resolved by its first initialised connection ([resolved]: the ListOffsets
+   answers of that connection) and at most once per Reader position: the restart offset of
+   reader.run is then absolute, no later step (deliveries, error answers, OffsetOutOfRange
+   handling, redials) brings a placeholder back, and the initialisation of a redial does not
+   move it — a connection lost before the first message was delivered resumes at the offset
+   the placeholder was FIRST resolved to, not at the partition's new first / last offset *)
+Theorem C02_restart_offset_absolute_after_init : forall run cfg g first last first2 last2 g' outs,
+  gen_step run cfg g (GInit first last first2 last2) = Some (g', outs) ->
+  g_phase g = PInit -> g_phase g' = PRead -> 0 <= first -> 0 <= last ->
+  0 <= g_offset g' /\ g_offset g' = resolved (g_offset g) first last.
+Proof. exact init_resolves. Qed.
+Print Assumptions C02_restart_offset_absolute_after_init.
+Theorem C02_restart_offset_stays_absolute : forall run cfg g ev g' outs,
+  gen_step run cfg g ev = Some (g', outs) -> ev_abs run g ev -> 0 <= g_offset g -> 0 <= g_offset g'.
+Proof. exact restart_offset_stays_absolute. Qed.
+Print Assumptions C02_restart_offset_stays_absolute.
+Theorem C02_redial_keeps_resolved_offset : forall run cfg g first last first2 last2 g' outs,
+  gen_step run cfg g (GInit first last first2 last2) = Some (g', outs) ->
+  g_phase g = PInit -> 0 <= g_offset g -> first <= g_offset g -> g_offset g' = g_offset g.
+Proof. exact redial_keeps_resolved_offset. Qed.
+Print Assumptions C02_redial_keeps_resolved_offset.
+
 (* C02_delivery_exact: for every label sequence (FetchMessage entries and receptions, SetOffset
    calls, steps of any generation — stale ones answered arbitrarily, cancelled ones cut
    anywhere — with the CURRENT generation's answers within the contract), what FetchMessage
